@@ -284,6 +284,10 @@ def Circuit.add (c : Circuit) (op : Op) : Except Err Circuit := do
   let c2 ← (sortRegs op.q).foldlM (fun c' r => c'.addRegIfAbsent r) c1
   pure (c2.addCore op)
 
+def exceptToOption' {α : Type} : Except Err α → Option α
+  | .ok a => some a
+  | .error _ => none
+
 /-! ## C13: rewrites -/
 
 /-- `CircuitBase.copy` (a deep copy): the same structure -/
@@ -404,5 +408,35 @@ def Circuit.qregs (c : Circuit) : List Reg := c.regsOf .e ++ c.regsOf .p
     `insert_at`ed onto their classical wire as well, which adds ordering constraints but changes no quantum wire. -/
 def Circuit.flat (c : Circuit) : Nat × Nat × Nat × List (List Item) :=
   (c.ne, c.np, c.nc, c.qregs.map c.flatWire)
+
+/-! ### frame conditions of the library calls (aliasing half of C13)
+
+  In this functional model a library call cannot change its argument; the model states this explicitly: a `World` is
+  the list of live circuit objects, a call reads the objects it is given and *appends* the objects it creates (the copy
+  it rewrites, the noisy copy, …).  That the Python objects behave like this is not provable here (object aliasing is
+  outside a functional model); it is what the interleaving runs of `harness/c13.py` test. -/
+
+inductive Call where
+  | copy (i : Nat)
+  | unwrapCopy (i : Nat) (order : List Nat)
+  | removeIdentityCopy (i : Nat) (order : List Nat)
+  | groupCopy (i : Nat) (order : List Reg)
+  | assignNoise (i : Nat) (seq : List Nat)
+  /-- `compile`, a metric's `evaluate`, `to_openqasm`, `compare`, depth queries, a solver run: read-only -/
+  | readOnly (i : Nat)
+
+structure World where
+  circuits : List Circuit
+
+def World.exec (w : World) (call : Call) : World :=
+  let get (i : Nat) : Option Circuit := w.circuits[i]?
+  let new : Option Circuit := match call with
+    | .copy i => (get i).map Circuit.copy
+    | .unwrapCopy i order => (get i).map fun c => c.copy.unwrapNodes order
+    | .removeIdentityCopy i order => (get i).map fun c => c.copy.removeIdentity order
+    | .groupCopy i order => (get i).bind fun c => exceptToOption' (c.copy.groupOneQubitGates order)
+    | .assignNoise i seq => (get i).bind fun c => exceptToOption' (c.assignNoise seq)
+    | .readOnly _ => none
+  ⟨w.circuits ++ new.toList⟩
 
 end Graphiq.Wire
